@@ -540,3 +540,77 @@ def scenarios():
         W(h, 0, 2, "b", pad=300000, in_header=True)           # broadcast: both listeners, the sender included
     mk("long-header-surplus-and-broadcast", cfg, long_header_surplus)
     return out
+
+
+# ------------------------------------------------------------------ message API sequences (coq/Fds/MsgApi.v, harness/c/fds_h.c `api`)
+def gen_api_sequence(rnd, nops):
+    """ops in the text format of ml/fds/driver.ml run_api; aimed at the case splits of the proofs: dup failing at every
+    position of a copy / get_args, get_args asking for fewer, exactly, more descriptors than the message has, with and without
+    a trailing type mismatch, several references, copies of copies, the application closing originals and handed-out dups"""
+    ops = []
+    msgs = {}            # handle -> [refs, nfds]
+    app = []             # open? per acquired descriptor
+    nexth = 1
+
+    def open_app():
+        ops.append("O"); app.append(True)
+    open_app()
+    for _ in range(nops):
+        live = [h for h in msgs]
+        openapp = [i for i, o in enumerate(app) if o]
+        r = rnd.random()
+        if r < 0.10 or not openapp:
+            if len(app) < 60:
+                open_app()
+        elif r < 0.20 or not live:
+            if nexth < 40:
+                ops.append("N.%d" % nexth); msgs[nexth] = [1, 0]; nexth += 1
+        elif r < 0.45:
+            h = rnd.choice(live)
+            ok = 0 if rnd.random() < 0.12 else 1
+            ops.append("A.%d.%d.%d" % (h, rnd.choice(openapp), ok))
+            if ok:
+                msgs[h][1] += 1
+        elif r < 0.58:
+            h = rnd.choice(live); n = msgs[h][1]
+            if nexth < 40:
+                fa = rnd.choice(["-", "-", "-"] + [str(k) for k in range(0, n + 2)])
+                ops.append("C.%d.%d.%s" % (h, nexth, fa))
+                if fa == "-" or int(fa) >= n:
+                    msgs[nexth] = [1, n]
+                    nexth += 1
+                # a failed copy leaves the handle unused; the next op may reuse the number
+        elif r < 0.68:
+            h = rnd.choice(live); n = msgs[h][1]
+            if n and len(app) < 60:
+                ok = 0 if rnd.random() < 0.15 else 1
+                ops.append("G.%d.%d.%d" % (h, rnd.randrange(n), ok))
+                if ok:
+                    app.append(True)
+        elif r < 0.82:
+            h = rnd.choice(live); n = msgs[h][1]
+            want = rnd.choice([0, 1, 2, n, n, max(0, n - 1), n + 1])
+            want = min(want, 4)
+            fa = rnd.choice(["-", "-", "-"] + [str(k) for k in range(0, want + 1)])
+            mm = 1 if rnd.random() < 0.3 else 0
+            if len(app) + want < 60:
+                ops.append("R.%d.%d.%s.%d" % (h, want, fa, mm))
+                if want <= n and not mm and (fa == "-" or int(fa) >= want):
+                    app.extend([True] * want)
+        elif r < 0.87:
+            h = rnd.choice(live)
+            ops.append("F.%d" % h); msgs[h][0] += 1
+        elif r < 0.95:
+            h = rnd.choice(live)
+            if msgs[h][0] > 1:
+                ops.append("U.%d" % h); msgs[h][0] -= 1
+            else:
+                ops.append("V.%d" % h); del msgs[h]
+        else:
+            i = rnd.choice(openapp)
+            ops.append("X.%d" % i); app[i] = False
+    for h in list(msgs):
+        while msgs[h][0] > 1:
+            ops.append("U.%d" % h); msgs[h][0] -= 1
+        ops.append("V.%d" % h)
+    return ops
